@@ -221,7 +221,7 @@ func (d *Directory) Truncate(n int, body, dir io.Writer) error {
 			return err
 		}
 	} else {
-		if cdOffset >= uint32Max || n >= uint16Max {
+		if cdOffset >= uint32Max || n >= uint16Max || size >= uint32Max {
 			return errors.New("file too big for 32-bit ZIP")
 		}
 		end.DiskCDCount = uint16(n)
